@@ -550,7 +550,7 @@ func (t dterm) render() string {
 	return strconv.Quote(t.word)
 }
 
-var denoteProbes = []string{"/^v$/", "/./", "/v/", "/a|b/", "v", "^v$", ".", "a|b", "a", "x", "vv", "", "/", "//", "a/b", "[/]"}
+var denoteProbes = []string{"/^v$/", "/./", "/v/", "/a|b/", "v", "^v$", ".", "a|b", "a", "x", "vv", "", "/", "//", "a/b", "[/]", "a]", "]"}
 
 func denoteCase(conn string, terms []dterm) {
 	var parts, tdesc, rms []string
@@ -615,7 +615,7 @@ func denoteCase(conn string, terms []dterm) {
 var denoteWords = []string{"v", "^v$", ".", "a|b", "/^v$/", "/./", "/v/", "/a|b/", "vv", "x"}
 
 // regexps whose first byte matters to the delimiter scan (bracket, group, escape) or that are empty
-var denoteRegexps = []string{"[/]", "(a/b)", "\\/", "", "[/]v", "(/)|x", "[^/]", "\\/\\/"}
+var denoteRegexps = []string{"[/]", "(a/b)", "\\/", "", "[/]v", "(/)|x", "[^/]", "\\/\\/", "a]", "]", "a]b|x", "]]"}
 
 func genDenote(r *hx.Rand) {
 	n := 2 + r.Intn(2)
@@ -943,6 +943,8 @@ func main() {
 		{"and", []dterm{{false, 'R', "v"}, {true, 'Q', "/v/"}, {true, 'L', "vv"}}},
 		{"or", []dterm{{false, 'R', "[/]"}, {false, 'Q', "x"}}},
 		{"or", []dterm{{false, 'R', ""}, {false, 'Q', "x"}}},
+		{"or", []dterm{{false, 'R', "a]"}, {false, 'Q', "x"}}},
+		{"and", []dterm{{false, 'R', "]"}, {true, 'R', "a]b|x"}}},
 		{"and", []dterm{{false, 'R', "(a/b)"}, {true, 'R', "\\/\\/"}}},
 		{"list", []dterm{{false, 'R', "\\/"}, {false, 'L', "v"}}},
 	} {
